@@ -86,11 +86,20 @@ static bool run_case(char const* kind, int cs, int T, std::vector<std::string> c
     return true;
 }
 
+// vctl::Rng(seed) and Rng(seed+1) produce the same stream shifted by one draw (x = seed * gamma):
+// decorrelate the seeds first
+static std::uint64_t mix_seed(std::uint64_t z)
+{
+    z = (z ^ (z >> 30)) * 0xBF58476D1CE4E5B9ull + 0x632BE59BD9B4E019ull;
+    z = (z ^ (z >> 27)) * 0x94D049BB133111EBull;
+    return z ^ (z >> 31);
+}
+
 int main(int argc, char** argv)
 {
     std::uint64_t seed = argc > 1 ? std::strtoull(argv[1], nullptr, 10) : 1;
     int ncases = argc > 2 ? std::atoi(argv[2]) : 100;
-    vctl::Rng rng(seed);
+    vctl::Rng rng(mix_seed(seed));
     for (int cs = 0; cs < ncases; ++cs)
     {
         bool rm = rng.chance(1, 2);
